@@ -2,6 +2,7 @@ from __future__ import annotations
 
 import asyncio
 import logging
+import weakref
 from datetime import datetime, timedelta, timezone
 from functools import wraps
 from typing import TYPE_CHECKING, Callable
@@ -20,6 +21,7 @@ __all__ = ("early",)
 
 logger = logging.getLogger(__name__)
 _LOCK_SUFFIX = ":lock"
+_recalculations: weakref.WeakKeyDictionary[Cache, dict[str, asyncio.Task]] = weakref.WeakKeyDictionary()
 
 
 def early(
@@ -48,7 +50,9 @@ def early(
     """
 
     background_tasks = set()
-    recalculations: dict[str, asyncio.Task] = {}  # cache key -> the recalculation of it running in this process
+    # cache key -> the recalculation of it running in this process; kept per backend, not per `early(...)` object:
+    # with `upper=True` the facade builds a new decorator for every call
+    recalculations: dict[str, asyncio.Task] = _recalculations.setdefault(backend, {})
 
     def _running_recalculation(cache_key: str) -> asyncio.Task | None:
         task = recalculations.get(cache_key)
